@@ -93,6 +93,16 @@ func (x *c01ctx) try(family, desc string, d *gabi.ProofD) bool {
 	if ok2 {
 		c01Post(r, x.cred, d2, family, desc+" via ProofList.Verify", x.ctx, x.non)
 	}
+	// a refused object tried again (Verify, then ProofList.Verify on the same object): still refused
+	if !ok && pv == nil {
+		ok3, pv3, _ := verifyList(gabi.ProofList{d1}, []*gabikeys.PublicKey{pk}, x.ctx, x.non, false, nil)
+		r.Eval(family+"/reverify", outcome(ok3, pv3))
+		if ok3 {
+			c01Post(r, x.cred, d1, family, desc+" at the second verification of the refused object", x.ctx, x.non)
+			r.Violation("C01/rejected-then-accepted-on-reverify", "a proof refused at first verification is accepted when the same object is verified again ("+family+": "+desc+")",
+				map[string]any{"family": family, "desc": desc, "cred": dumpCred(x.cred), "proof": dumpD(d)})
+		}
+	}
 	// object history: the candidate placed into an object that has verified the honest proof before
 	if x.base != nil && family != "A-honest" {
 		w := cloneD(x.base)
